@@ -84,6 +84,9 @@ def run(ck):
     ck.rule("C09.R13", "a veto reaches every layer of a Vec: the Vec's published interest never promises more than its `enabled` (= all elements) will allow (as C08.R6)", floor=3)
     ck.rule("C09.R14", "no layer misses a notification because of per-filter state left over from an earlier emission (bitmap typestate, as C07.R5)", floor=100)
     ck.rule("C09.R14s", "effect summaries behind C09.R14 (as C07.R5s)", floor=9)
+    ck.rule("C09.R18", "Box and Arc around the registry are transparent to the stack built on them: Layered recognises the Registry behind either (as C08.R12)", floor=2)
+    ck.rule("C09.R17", "`is this composite an absent (None) subscriber?` is answered by the conjunction of its parts: a tree, a stack or a Vec holding one real "
+            "subscriber next to a None is present (its hint, interest and per-subscriber-filter status count)", floor=3)
     ck.rule("C09.R16", "an absent optional layer is absent: with None, enabled / event_enabled answer true and register_callsite answers always, so it vetoes "
             "nothing the rest of the stack wants (its hint OFF is corrected at composition, C08.R6)", floor=3)
     ck.rule("C09.R15", "stack construction wires what the call says: and_then / with_collector / with_filter / boxed build their wrapper from (new layer, what it goes on top of) in that order, and with_collector lets the layer see the collector first (on_subscribe)", floor=4)
@@ -97,6 +100,9 @@ def run(ck):
     layered_drop_span(ck, F)
     composition_constructors(ck, F)
     option_none_neutral(ck, F)
+    none_marker_conjunction(ck, F)
+    from rules import C08 as _C08b
+    _C08b.inner_is_registry_rule(ck, F, rid="C09.R18")
     from rules import C07 as _C07
     _C07.r5(ck, Facts("release"), rid="C09.R14")
     from rules import C08 as _C08
@@ -747,6 +753,64 @@ def dispatch_forwarding(ck, F, rid="C09.R4", only=None):
             ck.bad(rid, key, where(b.raw["sp"]), "; ".join(sorted(set(problems))[:3]) or "no returning path", fn=b.path)
         else:
             ck.ok(rid, key, fn=b.path)
+
+
+def none_marker_conjunction(ck, F, rid="C09.R17"):
+    """Layered and Vec forward most downcast_raw queries to `any child that answers`. For the NoneLayerMarker that is wrong:
+    `a.and_then(None)` would declare itself absent, its level hint and interest would be discarded by the Layered above it
+    and the real subscriber inside would be told nothing."""
+    from rulekit.sym import PathEval, show
+    SUB = "tracing_subscriber::subscribe::Subscribe"
+    impls = [(tr, i) for tr in (SUB, COLLECT) for i in F.impls_of(tr)
+             if i["self_ty"].startswith("tracing_subscriber::subscribe::layered::Layered<") or i["self_ty"].startswith("alloc::vec::Vec<")]
+    for tr, imp in impls:
+        b = F.body(imp["methods"].get("downcast_raw") or "")
+        nm = "%s for %s" % (tr.rsplit("::", 1)[-1], imp["self_ty"].split("::")[-1])
+        if not ck.anchor(rid, nm + "::downcast_raw", b):
+            continue
+        key = "%s::downcast_raw: absent only if every part is" % nm
+        marks = [bb for bb, t in b.calls() if t["callee"].get("path") == "core::any::TypeId::of" and any("NoneLayerMarker" in x for x in (t["callee"].get("targs") or []))]
+        if not marks:
+            ck.bad(rid, key, where(b.raw["sp"]), "the none-layer marker is not treated apart: the query is forwarded to any child that answers it, so a composite with one None "
+                   "child declares itself absent", fn=b.path)
+            continue
+
+        def is_marker_test(c):
+            found = []
+
+            def walk(t):
+                if isinstance(t, tuple):
+                    if t and t[0] == "call" and isinstance(t[-1], int) and t[-1] in marks:
+                        found.append(1)
+                    for x in t:
+                        walk(x)
+            # the test `id == TypeId::of::<NoneLayerMarker>()` itself, not a query that merely passes the marker on
+            t0 = c[0]
+            if not (t0 and t0[0] == "call" and t0[1].rsplit("::", 1)[-1] in ("eq", "ne") and any(a == ("arg", 2) or (a and a[0] in ("field", "cast") and ("arg", 2) in a) for a in t0[2])):
+                return False
+            walk(t0)
+            return bool(found)
+        problems, n = [], 0
+        for p in PathEval(b).run():
+            if p.end != "return" or not any(is_marker_test(c) and c[1] != 0 for c in p.conds):
+                continue
+            n += 1
+            r = p.ret
+            txt = show(r)
+            if r[0] == "call" and r[1].rsplit("::", 1)[-1] == "and" and all(show(a).startswith("downcast_raw(") for a in r[2]) and \
+                    {show(a).split(",")[0] for a in r[2]} == {"downcast_raw(arg1.subscriber", "downcast_raw(arg1.inner"}:
+                continue
+            if txt.startswith("downcast_raw(arg1.subscriber") and any(show(c[0]) == "arg1.inner_is_registry" and c[1] != 0 for c in p.conds) and tr == COLLECT:
+                continue        # directly on the registry: nothing below can be a subscriber
+            if imp["self_ty"].startswith("alloc::vec::Vec<"):
+                al = [c for c in p.conds if show(c[0]).startswith("all(")]
+                if al and ((al[0][1] != 0) == txt.startswith("Option::Some")):
+                    continue
+            problems.append("answers %s" % txt[:90])
+        if problems or not n:
+            ck.bad(rid, key, where(b.raw["sp"]), "; ".join(sorted(set(problems))) or "the marker test guards no returning path", fn=b.path)
+        else:
+            ck.ok(rid, key, fn=b.path, detail=n)
 
 
 def option_none_neutral(ck, F, rid="C09.R16"):
